@@ -10,6 +10,7 @@ from pyopenapi_gen import IRSchema
 from pyopenapi_gen.context.render_context import RenderContext
 from pyopenapi_gen.core.utils import NameSanitizer
 from pyopenapi_gen.core.writers.code_writer import python_string_literal
+from pyopenapi_gen.core.writers.documentation_writer import escape_docstring_text
 from pyopenapi_gen.core.writers.python_construct_renderer import PythonConstructRenderer
 from pyopenapi_gen.helpers.type_resolution.finalizer import TypeFinalizer
 from pyopenapi_gen.types.services.type_service import UnifiedTypeService
@@ -87,7 +88,10 @@ class DataclassGenerator:
         context.add_import("dataclasses", "field")
         context.add_import("typing", "Any")
 
-        description = schema.description or "Generic JSON value object that preserves arbitrary data."
+        # The description is spliced into the docstring of the wrapper class templates below: it must stay inert there
+        description = escape_docstring_text(
+            schema.description or "Generic JSON value object that preserves arbitrary data."
+        )
 
         # Determine value type from additionalProperties
         value_type = "Any"
